@@ -15,6 +15,7 @@
 package pilosa
 
 import (
+	"io"
 	"os"
 	"testing"
 )
@@ -120,4 +121,80 @@ func TestFragment_RowOps_DurableOnReturn(t *testing.T) {
 		t.Fatalf("setRow returned before it was durable: row 2 = %v on disk", cols)
 	}
 	g.Clean(t)
+}
+
+// writeCounter counts the writes that reach the op log.
+type writeCounter struct {
+	w io.Writer
+	n int
+}
+
+func (c *writeCounter) Write(p []byte) (int, error) {
+	c.n++
+	return c.w.Write(p)
+}
+
+// A logical write that consists of several op log entries must reach the file
+// with one write: a crash between the entries of an integer value leaves a
+// value that was never written, between the clear and the set of a mutex write
+// a column without a row, between the add and the remove batch of an import a
+// mutex column with two rows.
+func TestFragment_MultiEntryWrites_SingleAppend(t *testing.T) {
+	count := func(f *fragment, fn func()) int {
+		t.Helper()
+		c := &writeCounter{w: f.storage.OpWriter}
+		f.storage.OpWriter = c
+		fn()
+		f.storage.OpWriter = c.w
+		return c.n
+	}
+	must := func(err error) {
+		t.Helper()
+		if err != nil {
+			t.Fatal(err)
+		}
+	}
+
+	t.Run("int", func(t *testing.T) {
+		f := mustOpenBSIFragment("i", "v", viewBSIGroupPrefix+"v", 0)
+		defer f.Clean(t)
+		if n := count(f, func() { _, err := f.setValue(100, 3, 5); must(err) }); n != 1 {
+			t.Fatalf("first value: %d writes", n)
+		}
+		if n := count(f, func() { _, err := f.setValue(100, 3, 2); must(err) }); n != 1 {
+			t.Fatalf("overwrite: %d writes", n)
+		}
+		if n := count(f, func() { must(f.importValue([]uint64{100, 101}, []int64{-3, 6}, 3, false)) }); n != 1 {
+			t.Fatalf("value import: %d writes", n)
+		}
+		must(f.Reopen())
+		if v, ok, err := f.value(100, 3); err != nil || !ok || v != -3 {
+			t.Fatalf("value(100) = %d, %v, %v", v, ok, err)
+		} else if v, ok, err := f.value(101, 3); err != nil || !ok || v != 6 {
+			t.Fatalf("value(101) = %d, %v, %v", v, ok, err)
+		}
+	})
+
+	t.Run("mutex", func(t *testing.T) {
+		f := mustOpenMutexFragment("i", "m", viewStandard, 0, "")
+		defer f.Clean(t)
+		if n := count(f, func() { _, err := f.setBit(1, 100); must(err) }); n != 1 {
+			t.Fatalf("first set: %d writes", n)
+		}
+		if n := count(f, func() { _, err := f.setBit(2, 100); must(err) }); n != 1 {
+			t.Fatalf("replacing set: %d writes", n)
+		}
+		f.mustSetBits(1, 101)
+		if n := count(f, func() {
+			must(f.bulkImport([]uint64{3, 3}, []uint64{100, 101}, &ImportOptions{}))
+		}); n != 1 {
+			t.Fatalf("import: %d writes", n)
+		}
+		must(f.Reopen())
+		if cols := f.row(3).Columns(); len(cols) != 2 {
+			t.Fatalf("row 3 = %v", cols)
+		} else if cols := append(f.row(1).Columns(), f.row(2).Columns()...); len(cols) != 0 {
+			t.Fatalf("rows 1, 2 = %v", cols)
+		}
+	})
 }
